@@ -208,8 +208,9 @@ Finalize(ep, f, now) ==
                  IN \* a SequenceReset at or below its own number is not journaled (the cleanup of SetSeqIn would drop it)
                     IF sr /\ f.newseq <= f.seq THEN SetSeqIn(e3, f.newseq)
                     ELSE IF \E i \in DOMAIN e3.jin : e3.jin[i] = f.seq THEN Err(e3, "DuplicateSeqNoError")
-                    ELSE LET \* the stored counter follows the live expectation when that is ahead of the frame (persist_msg)
-                             st == IF KF_StoredInLag \/ e3.nin - 1 < f.seq THEN f.seq + 1 ELSE e3.nin
+                    ELSE LET \* persist_msg stores the frame's own number: n + 1 is the stored next number (for a SequenceReset the
+                             \* live counter is held at own number + 1 as well until SetSeqIn moves both to NewSeqNo)
+                             st == f.seq + 1
                              e4 == [e3 EXCEPT !.jin = SelectSeq(@, LAMBDA n : n < f.seq) \o <<f.seq>> \o SelectSeq(@, LAMBDA n : n > f.seq),
                                               !.sin = st]
                          IN IF f.kind = "SEQRESET" /\ ~KF_StoredInLag THEN SetSeqIn(e4, f.newseq) ELSE e4
